@@ -205,9 +205,11 @@ Section WithArith.
     | None => Ok t
     | Some i =>
         match t_act t with
-        | Sell sh aps com rate crate _ =>
+        | Sell sh aps com rate crate spec =>
+            (* a value the user forced stays forced (fix: see known-findings.d/C10.json) *)
+            let force := match spec with Some (_, f) => f | None => false end in
             Ok {| t_sec := t_sec t; t_td := t_td t; t_sd := t_sd t;
-                  t_act := Sell sh aps com rate crate (Some (sf_amount i, false));
+                  t_act := Sell sh aps com rate crate (Some (sf_amount i, force));
                   t_af := t_af t; t_glob := t_glob t; t_ri := t_ri t |}
         | _ => Panic (PanicAssert 60%N)     (* summary.rs:423 "Superficial loss was not sell" *)
         end
